@@ -64,6 +64,18 @@ def cmd_check(pid: str, tier: str) -> int:
                     ctx.out(f"ANALYSIS-ERROR selftest {f}")
                 ctx.finish()
                 return 2
+            # behaviour-preserving rewrites of every function the rules looked at must leave them silent
+            from . import stress
+
+            res, bad = stress.run([pid])
+            ctx.extra["stress"] = {"rewritten": sum(1 for r in res if r[2] == "ok"), "skipped": sum(1 for r in res if r[2] == "skipped"),
+                                   "modes": ["rename", "noop", "annotate", "hoist"], "problems": len(bad)}
+            ctx.out(f"ANALYSED stress property={pid} rewritten_functions={ctx.extra['stress']['rewritten']} problems={len(bad)}")
+            if bad:
+                for r in bad:
+                    ctx.out("ANALYSIS-ERROR stress " + " ".join(str(x) for x in r)[:300])
+                ctx.finish()
+                return 2
         return ctx.finish()
     except AnalysisError as e:
         print(f"ANALYSIS-ERROR property={pid} {e}")
